@@ -233,6 +233,13 @@ class Check:
                 self.proof["assumptions"] = parse_assumptions(out2)
                 self.proof["theorems"] = re.findall(r"^\s*(?:Theorem|Example)\s+([A-Za-z0-9_']+)",
                                                     open(os.path.join(COQ, pfile)).read(), re.M)
+                if self.thorough:
+                    # independent re-check of the compiled closure with coqchk, axioms listed with -o
+                    rc3, out3 = sh(["timeout", "1200", "coqchk", "-silent", "-o", "-Q", ".", "Verif", f"Verif.Props.{self.prop}"], cwd=COQ, timeout=1300)
+                    summ = out3[out3.index("CONTEXT SUMMARY"):] if "CONTEXT SUMMARY" in out3 else out3[-400:]
+                    self.proof["coqchk"] = {"exit": rc3, "summary": " ".join(summ.split())[:600]}
+                    if rc3:
+                        self.broken.append(("proof", "coqchk", summ[-400:]))
                 return
             out = out2
         m = re.search(r'File "\./([^"]+)", line (\d+)', out)
@@ -370,6 +377,7 @@ class Check:
                 "checker_cmd": self.proof["checker_cmd"],
                 "trusted_base": TRUSTED_BASE + ["Print Assumptions: " + a for a in self.proof["assumptions"]],
                 "property_theorems": self.proof["theorems"],
+                "coqchk": self.proof.get("coqchk", "not run in the quick tier"),
                 "closure_files": self.proof.get("files", []),
                 "model_regeneration": self.regen_status,
                 "translator_fallbacks": [list(f) for f in self.fallback],
